@@ -140,6 +140,7 @@ static void enumerate(const Input &in, bool counting) {
     RunInfo base = run_once(in.scn, 0);
     if (!counting) return;
     long N = base.allocs; if (N <= 0) return;
+    g_stats.sample_sparse("c18 k=1.." + std::to_string(N) + " (all) " + in.label + "\n" + in.scn.text().substr(0, 1200), g_stats.classes["inputs"]);
     g_stats.cls("inputs"); g_stats.cls("input_" + in.label); g_stats.cls("allocations_in_fault_free_runs", (uint64_t)N);
     long stride = 1, phase = 0; // every k: a run costs ~40 us
     std::vector<long> ks; for (long k = 1 + phase; k <= N; k += stride) ks.push_back(k);
